@@ -213,6 +213,85 @@ fn mutate(r: &mut StdRng, s: &str) -> String {
 	cs.into_iter().collect()
 }
 
+/// A random authority drawn from the character CLASSES of RFC 3986/3987 section 3.2 (not from a
+/// vocabulary): every allowed ASCII character can stand next to every delimiter.
+fn gen_class_authority(r: &mut StdRng, ascii: bool) -> String {
+	const UNRESERVED: &[u8] = b"ABCDEFGHIJKLMNOPQRSTUVWXYZabcdefghijklmnopqrstuvwxyz0123456789-._~";
+	const SUB_DELIMS: &[u8] = b"!$&'()*+,;=";
+	const HEX: &[u8] = b"0123456789ABCDEFabcdef";
+	const UCS: &[char] = &['\u{a0}', '\u{e9}', '\u{ff}', '\u{3000}', '\u{d7ff}', '\u{f900}', '\u{feff}', '\u{ffef}', '\u{10000}', '\u{1f600}', '\u{efffd}'];
+	fn chars(r: &mut StdRng, n: usize, colon: bool, ascii: bool, out: &mut String) {
+		for _ in 0..n {
+			match r.gen_range(0..100) {
+				0..=54 => out.push(*UNRESERVED.choose(r).unwrap() as char),
+				55..=69 => out.push(*SUB_DELIMS.choose(r).unwrap() as char),
+				70..=79 if colon => out.push(':'),
+				80..=89 => { out.push('%'); out.push(*HEX.choose(r).unwrap() as char); out.push(*HEX.choose(r).unwrap() as char); }
+				90..=99 if !ascii => out.push(*UCS.choose(r).unwrap()),
+				_ => out.push(*UNRESERVED.choose(r).unwrap() as char),
+			}
+		}
+	}
+	let mut a = String::new();
+	if r.gen_bool(0.6) {
+		let n = r.gen_range(0..14);
+		chars(r, n, true, ascii, &mut a);
+		a.push('@');
+	}
+	match r.gen_range(0..100) {
+		0..=49 => { let n = r.gen_range(0..14); chars(r, n, false, ascii, &mut a) }
+		50..=69 => {
+			let groups = |r: &mut StdRng, k: usize| (0..k).map(|_| { let d = r.gen_range(1..=4); (0..d).map(|_| *HEX.choose(r).unwrap() as char).collect::<String>() }).collect::<Vec<_>>().join(":");
+			let left = r.gen_range(0..8);
+			let right = r.gen_range(0..(8 - left));
+			if r.gen_bool(0.3) {
+				a.push_str(&format!("[{}::{}{}{}.{}.{}.{}]", groups(r, left), groups(r, right.min(5)), if right.min(5) > 0 { ":" } else { "" },
+					r.gen_range(0..256), r.gen_range(0..256), r.gen_range(0..256), r.gen_range(0..256)));
+			} else {
+				a.push_str(&format!("[{}::{}]", groups(r, left), groups(r, right)));
+			}
+		}
+		70..=84 => a.push_str(&format!("{}.{}.{}.{}", r.gen_range(0..256), r.gen_range(0..256), r.gen_range(0..256), r.gen_range(0..256))),
+		_ => {
+			a.push_str("[v");
+			for _ in 0..r.gen_range(1..4) { a.push(*HEX.choose(r).unwrap() as char); }
+			a.push('.');
+			let n = r.gen_range(1..10);
+			chars(r, n, true, true, &mut a);
+			// no percent-escapes inside an IP literal
+			while a.contains('%') { a = a.replacen('%', "-", 1); }
+			a.push(']');
+		}
+	}
+	if r.gen_bool(0.5) {
+		a.push(':');
+		for _ in 0..r.gen_range(0..6) { a.push((b'0' + r.gen_range(0..10)) as char); }
+	}
+	a
+}
+
+macro_rules! auth_event {
+	($out:ident, $n:ident, $w:ident, $fam:expr, $m:ident, $Full:ident) => {{
+		let r = guard(|| iref::$m::Authority::new($w).ok().map(|a| {
+			let view = |u: Option<&str>, h: &str, p: Option<&str>| json!({"userinfo": enc_opt(u), "host": enc(h), "port": enc_opt(p)});
+			let parts = a.parts();
+			let emb_text = format!("s://{}/p", $w);
+			let emb = iref::$m::$Full::new(emb_text.as_str()).ok().and_then(|x| x.authority().map(|e|
+				view(e.user_info().map(|x| x.as_str()), e.host().as_str(), e.port().map(|x| x.as_str()))));
+			json!({"acc": view(a.user_info().map(|x| x.as_str()), a.host().as_str(), a.port().map(|x| x.as_str())),
+				"parts": view(parts.user_info.map(|x| x.as_str()), parts.host.as_str(), parts.port.map(|x| x.as_str())),
+				"emb": emb.unwrap_or(json!({}))})
+		}));
+		let ev = match r {
+			Ok(Some(v)) => json!({"ev": "auth", "fam": $fam, "w": enc($w), "ok": true, "panic": false, "v": v}),
+			Ok(None) => json!({"ev": "auth", "fam": $fam, "w": enc($w), "ok": false, "panic": false, "v": {}}),
+			Err(m) => json!({"ev": "auth", "fam": $fam, "w": enc($w), "ok": false, "panic": true, "v": {}, "msg": m}),
+		};
+		writeln!($out, "{ev}").unwrap();
+		$n += 1;
+	}};
+}
+
 macro_rules! parse_event {
 	($out:ident, $n:ident, $w:ident, $tag:expr, $T:ty, $scheme:expr) => {{
 		let r = guard(|| <$T>::new($w).ok().map(|v| {
@@ -272,6 +351,17 @@ fn main_parse(args: &[String]) {
 		if w.is_ascii() {
 			parse_event!(out, count, w, "UriRef", iref::uri::UriRef, |v: &iref::uri::UriRef| v.scheme().map(|x| x.as_str().to_string()));
 			parse_event!(out, count, w, "Uri", iref::uri::Uri, |v: &iref::uri::Uri| Some(v.scheme().as_str().to_string()));
+		}
+		// authorities from character classes (C03)
+		{
+			let ascii = r.gen_bool(0.5);
+			let a = gen_class_authority(&mut r, ascii);
+			let a = if i % 4 == 3 { mutate(&mut r, &a) } else { a };
+			let a = a.as_str();
+			auth_event!(out, count, a, "iri", iri, Iri);
+			if a.is_ascii() {
+				auth_event!(out, count, a, "uri", uri, Uri);
+			}
 		}
 		// byte routes: UTF-8 gate (C01 / C14)
 		if i % 5 == 0 {
@@ -521,6 +611,34 @@ fn main_big(args: &[String]) {
 					"scheme": [s.0, s.1], "authority": [a.0, a.1], "path": [p.0, p.1], "query": [q.0, q.1], "fragment": [f.0, f.1],
 					"parts_path": [pp.0, pp.1], "base": [b.0, b.1], "allocs": al}),
 				Err(m) => json!({"ev": "big_ref", "fam": fam, "len": text.len(), "panic": true, "msg": m}),
+			};
+			writeln!(out, "{ev}").unwrap();
+			count += 1;
+		}
+	}
+	// ---- percent-decoded view of a very long segment (C19), before and after the reference went
+	// ---- through resolution (which leaves a reference with a scheme and no dot segment as it is)
+	for n in [500usize, 30000, 70000, 200000] {
+		let text = format!("data:text/plain,{}", "%C3%A9".repeat(n));
+		for fam in ["iri", "uri"] {
+			pending(&json!({"ev": "big_pct", "fam": fam, "n": n, "panic": true, "msg": "process aborted"}));
+			macro_rules! body {
+				($m:ident, $Ref:ident, $Full:ident) => {{
+					let r = iref::$m::$Ref::new(text.as_str()).unwrap();
+					let base = iref::$m::$Full::new("s://h/x/y").unwrap();
+					let res = r.resolved(base);
+					let unchanged = res.as_str() == text;
+					let seg = res.path().segments().next_back().unwrap();
+					let p = seg.as_pct_str();
+					let direct = r.path().segments().next_back().unwrap().as_pct_str().bytes().count();
+					(unchanged, p.bytes().count(), p.chars().count(), p.len(), p.decode().chars().count(), direct)
+				}};
+			}
+			let r = guard(|| if fam == "iri" { body!(iri, IriRef, Iri) } else { body!(uri, UriRef, Uri) });
+			let ev = match r {
+				Ok((u, b, c, l, d, direct)) => json!({"ev": "big_pct", "fam": fam, "n": n, "panic": false, "resolved_unchanged": u,
+					"bytes": b, "chars": c, "len": l, "decoded": d, "direct_bytes": direct}),
+				Err(m) => json!({"ev": "big_pct", "fam": fam, "n": n, "panic": true, "msg": m}),
 			};
 			writeln!(out, "{ev}").unwrap();
 			count += 1;
